@@ -25,8 +25,11 @@ RULE = ("random histories (length <= 8 quick / <= 40 thorough) of solve() calls 
         "order) with strings from the full language, from the subset's own symbols and plain-parenthesis / call "
         "forms; atom classes that are not pure: constructor reading variables changed between the calls, in-place "
         "operators returning self (a string-list atom and a numeric atom over the default operators), constructor-call "
-        "counting; the stock AtomBase with expressions whose numpy arithmetic "
-        "gives nan / inf / raises or that use a logarithm -- there the k-th outcome is also compared with the outcome "
+        "counting; callable atoms that hand out long-lived objects from a variable table (objects with in-place "
+        "__iadd__/... and non-mutating __add__/...; own class and numpy arrays), every instance on its own pristine "
+        "table; the stock AtomBase with expressions whose numpy arithmetic "
+        "gives nan / inf / raises, that use a logarithm, or that are comparisons / negated comparisons / their "
+        "conjunctions and disjunctions -- there the k-th outcome is also compared with the outcome "
         "of the same expression in a process that solved nothing before (forked from a pristine server). Every instance gets private copies of the operator "
         "dict and step list; the fresh instance is built from the pristine configuration at the moment of the "
         "call. Plus histories in which the buffers and self.expr are overwritten with garbage between the calls, and "
@@ -43,8 +46,8 @@ ASSUMPTIONS = [
     "objects after every generated history (snapshot and vars() key sets), they are parameters / state "
     "components of the model",
     "the atom algebra in force at a call is not influenced by earlier calls through process-wide state: numpy error "
-    "mode / error callback / print options, recursion limit, decimal context, locale, cwd, environment, warning "
-    "filters are compared before/after every history, and stock-atom outcomes with the pristine-process baseline",
+    "mode / error callback / print options, recursion limit, decimal context, locale, cwd, environment, module-level "
+    "data of the solver modules are compared before/after every history, and stock-atom outcomes with the pristine-process baseline",
     "model comparison (code vs Lean state machine) is a verdict only for the input classes the property names "
     "(generated valid expressions and the injected faults); on random symbol soup ('assembled' strings of the "
     "subset configurations) a difference is only counted (outside.impl_ne_model) -- the fresh-instance comparison, "
@@ -226,6 +229,64 @@ def make_configs():
     cfgs["stockcfg"] = dict(atom=AtomBase, operators=None, steps=None, alg=None,
                             classes=list(dflt.operators.values()), value=lambda a: PR.canon_value(a.value),
                             observe=quiet, pristine=True)
+    # atom "constructors" that hand out LONG-LIVED objects from a variable table (the same object for the same
+    # name in every call); the objects have in-place operators (__iadd__ ...) AND non-mutating ones (__add__ ...).
+    # Every instance (the long-lived one and each fresh one) gets its own pristine table.
+    class Vec:
+        def __init__(self, data):
+            self.value = list(data)
+
+        def _zip(self, o, f):
+            a, b = self.value, o.value
+            if len(a) == 1:
+                a = a * len(b)
+            if len(b) == 1:
+                b = b * len(a)
+            return [f(x, y) for x, y in zip(a, b)]
+
+        def __add__(self, o): return Vec(self._zip(o, lambda x, y: x + y))
+        def __sub__(self, o): return Vec(self._zip(o, lambda x, y: x - y))
+        def __mul__(self, o): return Vec(self._zip(o, lambda x, y: x * y))
+        def __truediv__(self, o): return Vec(self._zip(o, lambda x, y: x / y))
+        def __pow__(self, o): return Vec(self._zip(o, lambda x, y: x ** y))
+
+        def _ip(self, v):
+            self.value[:] = v
+            return self
+
+        def __iadd__(self, o): return self._ip(self._zip(o, lambda x, y: x + y))
+        def __isub__(self, o): return self._ip(self._zip(o, lambda x, y: x - y))
+        def __imul__(self, o): return self._ip(self._zip(o, lambda x, y: x * y))
+        def __itruediv__(self, o): return self._ip(self._zip(o, lambda x, y: x / y))
+        def __ipow__(self, o): return self._ip(self._zip(o, lambda x, y: x ** y))
+
+    def vec_factory():
+        table = {"a": Vec([1.0, 2.0, 3.0]), "b": Vec([10.0, 20.0, 30.0]), "c": Vec([2.0, 2.0, 2.0])}
+
+        def atom(text):
+            t = text.strip()
+            return table[t] if t in table else Vec([float(t)])
+        return atom
+
+    def array_factory():
+        table = {"a": np.array([1.0, 2.0, 3.0]), "b": np.array([10.0, 20.0, 30.0]), "c": np.array([2.0, 2.0, 2.0])}
+
+        def atom(text):
+            t = text.strip()
+            return table[t] if t in table else np.float64(t)
+        return atom
+
+    from scinumtools.solver import OperatorPar, OperatorMul, OperatorTruediv, OperatorAdd, OperatorSub, OperatorPow
+    vops = {'par': OperatorPar, 'pow': OperatorPow, 'mul': OperatorMul, 'truediv': OperatorTruediv,
+            'add': OperatorAdd, 'sub': OperatorSub}
+    vsteps = [dict(operators=['par'], otype=Otype.ARGS), dict(operators=['pow'], otype=Otype.BINARY),
+              dict(operators=['mul', 'truediv'], otype=Otype.BINARY), dict(operators=['add', 'sub'], otype=Otype.BINARY)]
+    cfgs["varscfg"] = dict(atom=None, atom_factory=vec_factory, atom_types=(Vec,), operators=vops, steps=vsteps,
+                           alg=None, classes=list(vops.values()), value=lambda a: [PR.canon_value(x) for x in a.value],
+                           observe=quiet)
+    cfgs["arrayscfg"] = dict(atom=None, atom_factory=array_factory, atom_types=(np.ndarray, np.floating),
+                             operators=vops, steps=vsteps, alg=None, classes=list(vops.values()),
+                             value=lambda a: [PR.canon_value(x) for x in np.atleast_1d(a).tolist()], observe=quiet)
     cfgs["inplacenumcfg"] = dict(atom=MutNum, operators=None, steps=None, alg=None,
                                  classes=list(dflt.operators.values()), value=lambda a: PR.canon_value(a.value),
                                  observe=quiet)
@@ -297,7 +358,8 @@ def new_solver(cfg, enter=False):
     is confined to this instance and seen by the snapshot)"""
     from scinumtools.solver import ExpressionSolver
     ops = None if cfg["operators"] is None else dict(cfg["operators"])
-    es = ExpressionSolver(cfg["atom"], ops, copy_steps(cfg["steps"]))
+    atom = cfg["atom_factory"]() if cfg.get("atom_factory") else cfg["atom"]     # factory: a pristine variable table
+    es = ExpressionSolver(atom, ops, copy_steps(cfg["steps"]))
     if enter:
         es.__enter__()
     return es
@@ -306,7 +368,7 @@ def new_solver(cfg, enter=False):
 def canon_tok(cfg, t):
     if t is None:
         return "none"
-    if isinstance(t, (cfg["atom"], cfg["any_atom"])) or isinstance(t, P.RecAtom):
+    if isinstance(t, cfg.get("atom_types") or (cfg["atom"], cfg["any_atom"])) or isinstance(t, P.RecAtom):
         return {"atom": cfg["value"](t)}
     for i, c in enumerate(cfg["classes"]):
         if type(t) is c:
@@ -587,11 +649,56 @@ def gen_num(rng):
     return join(rng, lx), "valid"
 
 
+def gen_vars(rng):
+    """expressions over the variables of a table and numbers: + - * / ** and parentheses"""
+    names = ["a", "b", "c", "a", "2", "1.5", "3"]
+    n = rng.randint(1, 4)
+    lx = []
+    for i in range(n):
+        if i:
+            lx.append(rng.choice(["+", "-", "*", "/", "**", "+"]))
+        if rng.random() < 0.25:
+            lx += ["(", rng.choice(names), rng.choice(["+", "*", "-"]), rng.choice(names), ")"]
+        else:
+            lx.append(rng.choice(names))
+    if rng.random() < 0.25:
+        kind, lx = inject_fault(rng, lx)
+        return join(rng, lx), kind
+    return join(rng, lx), "valid"
+
+
+def gen_logic(rng):
+    """comparisons, negated comparisons, and their conjunctions / disjunctions (default operators)"""
+    def cmp_():
+        return "%s %s %s" % (rng.choice(["1", "2", "3", "2", "5"]), rng.choice(["==", "!=", "<", ">", "<=", ">="]),
+                             rng.choice(["1", "2", "3", "4"]))
+
+    def term():
+        q = rng.random()
+        c = cmp_()
+        if q < 0.3:
+            return c
+        if q < 0.55:
+            return "!(%s)" % c
+        if q < 0.75:
+            return "!%s" % c
+        if q < 0.85:
+            return "!%s" % rng.choice(["0", "1", "2"])
+        return "(%s)" % c
+    n = rng.choice([1, 1, 1, 2, 2, 3])
+    t = term()
+    for _ in range(n - 1):
+        t += " %s %s" % (rng.choice(["&&", "||"]), term())
+    return t, "valid"
+
+
 def gen_stock(rng):
+    if rng.random() < 0.3:
+        return gen_logic(rng)
     return gen_edge(rng) if rng.random() < 0.6 else gen_default(rng)
 
 
-GENS = {"stockcfg": gen_stock, "inplacenumcfg": gen_num, "default": gen_default, "strcfg": gen_str, "unarycfg": gen_unary, "worldcfg": gen_world,
+GENS = {"stockcfg": gen_stock, "varscfg": gen_vars, "arrayscfg": gen_vars, "inplacenumcfg": gen_num, "default": gen_default, "strcfg": gen_str, "unarycfg": gen_unary, "worldcfg": gen_world,
         "inplacecfg": gen_str, "countcfg": gen_default}
 
 
@@ -802,7 +909,7 @@ def correspond(ctx: Ctx):
         ctx.count("subset.%s_steps" % ("default" if sub["steps"] is None else "custom"))
         plan.append(("subset", sub, [c[0] for c in calls], [c[1] for c in calls]))
     # atom classes that are not pure (constructor reads changing variables / in-place operators / counted)
-    for cfgname in ("worldcfg", "inplacecfg", "countcfg", "inplacenumcfg"):
+    for cfgname in ("worldcfg", "inplacecfg", "countcfg", "inplacenumcfg", "varscfg", "arrayscfg"):
         for _ in range(count // 2):
             n = rng.randint(2, maxlen)
             calls = [GENS[cfgname](rng) for _ in range(n)]
